@@ -7,7 +7,7 @@ LEVEL = 'proof'
 RULE = ('dict stage: tree.to_dict() of the implementation, read through a fail-closed decoder (documented node types and keys only), vs the '
         'extracted Gallina to_dict on generated documents, mutations and token soup for all root rules and fragment rules; oracle: text '
         'nodes carry a string and nothing else, markers no children, block nodes no hier children, json.dumps/loads round trip equal, '
-        'to_dict() twice gives equal dicts and leaves every class-level data attribute of bluebell.types untouched, XML built from the reloaded dict equals XML built from '
+        'to_dict() twice gives equal dicts and leaves every class-level data attribute of bluebell.types untouched, the dict tree is the same in fresh interpreters with different string-hash seeds (attribute-heavy documents), XML built from the reloaded dict equals XML built from '
         'the parse tree. non-trivial = dict with >= 5 nodes; distinct by (rule, text).')
 TRUSTED_BASE = [
     'Coq 8.16.1 kernel; no axioms',
@@ -91,6 +91,31 @@ def _oracle(args):
     if a != c or a != d: return ('bad', 'XML from the reloaded dict, built on the generator that converted the tree, differs from XML from the parse tree', n)
     return ('ok', None, n)
 
+HASH_PROBE = r'''
+import sys, json
+sys.setrecursionlimit(20000)
+from bluebell.parser import AkomaNtosoParser
+from cobalt import FrbrUri
+rule, text = json.load(sys.stdin)
+p = AkomaNtosoParser(FrbrUri.parse('/akn/za/act/2009/1'))
+print(json.dumps(p.parse_with_failure(text, rule).to_dict(), sort_keys=True))
+'''
+
+def across_hash_seeds(rule, text, seeds=('1', '2', '7')):
+    """the dict tree of the same (rule, pre-parsed text) in fresh interpreters with different string-hash seeds: None if all equal"""
+    import subprocess, os
+    outs = []
+    for hs in seeds:
+        env = dict(os.environ, PYTHONHASHSEED=hs, PYTHONPATH=core.REPO)
+        r = subprocess.run([core.PY, '-c', HASH_PROBE], input=json.dumps([rule, text]), capture_output=True, text=True, env=env, timeout=120)
+        outs.append(r.stdout if r.returncode == 0 else 'ERR')
+    return None if len(set(outs)) == 1 else 'the dict tree depends on the interpreter\'s string-hash seed (PYTHONHASHSEED): %d different trees for seeds %s' % (len(set(outs)), ', '.join(seeds))
+
+# attribute lists that mix dotted classes, a class pair and other pairs - where an unordered container would show
+HASH_DOCS = ['SEC 1. - h\n  P.note.small{class lead} Some text.\n', 'P.a.b.c.d{class e f|status x|refersTo #y} t\n',
+             'TABLE.x.y{class z}\n  TR\n    TC.p.q{class r|colspan 2}\n      c\n', 'x {{abbr.a.b{class c|title t} y}} {{term.k.l.m{refersTo #r|class n} z}}\n',
+             'SEC.s1.s2.s3{class s0} 2\n  QUOTE.q1.q2{class q0|startQuote "}\n    t\n']
+
 def cases(ctx, n):
     p = impl.parser()
     out = []
@@ -133,12 +158,21 @@ def search(ctx, budget):
             ctx.failures.append(({'stage': 'dict', 'rule': c[0], 'text': c[1]}, r[1]))
         elif r[0] == 'ok' and r[2] >= 5:
             ctx.nontrivial(c)
+    p = impl.parser()
+    for t in HASH_DOCS:
+        ctx.evaluations += 1; ctx.count('hash_seed_docs')
+        bad = across_hash_seeds('act', p.pre_parse(t))
+        if bad: ctx.failures.append(({'stage': 'hash', 'rule': 'act', 'text': p.pre_parse(t)}, bad))
     ctx.sample({'rule': cs[0][0], 'pre_parsed_text': cs[0][1][:400]})
 
 def probe_disagreement(ctx, stage, case):
     if stage == 'dict':
         r = _oracle((case['rule'], case['text']))
         if r[0] == 'bad': ctx.failures.append((dict(case, stage='dict'), r[1]))
+        elif getattr(ctx, '_hash_probes', 0) < 6:
+            ctx._hash_probes = getattr(ctx, '_hash_probes', 0) + 1
+            bad = across_hash_seeds(case['rule'], case['text'])
+            if bad: ctx.failures.append((dict(case, stage='hash'), bad))
 
 CLASSIFIERS = {}
 
@@ -146,6 +180,8 @@ def replay(obj):
     case = obj.get('case') or (obj.get('disagreements') or [{}])[0].get('case')
     if not case:
         print('nothing to replay:', obj.get('broken_obligations')); return 1
+    if case.get('stage') == 'hash':
+        bad = across_hash_seeds(case['rule'], case['text']); print(bad); return 1 if bad else 0
     ok = stages.replay_stage(case)
     r = _oracle((case['rule'], case['text'])); print('oracle:', r[:2])
     return 1 if (r[0] == 'bad' or ok is False) else 0
